@@ -5,6 +5,10 @@ VERIF_DIR="$(cd "$(dirname "$0")" && pwd)"
 REPO="${VERIF_REPO:-/repo}"
 OUT="${VERIF_BIN:-$VERIF_DIR/build/sim.test}"
 export GOFLAGS=-mod=mod GOPROXY=off GOSUMDB=off GOTOOLCHAIN=local
-VERIF_REPO="$REPO" python3 "$VERIF_DIR/mkbuild.py"
+# the generated overlay names files under $REPO: one directory per repository root, so that builds
+# against scratch worktrees (seeded changes) never race with a build against /repo
+BD="$VERIF_DIR/build"
+if [ "$REPO" != "/repo" ]; then BD="$VERIF_DIR/build/alt$(echo "$REPO" | tr -c 'A-Za-z0-9\n' '_')"; fi
+VERIF_REPO="$REPO" VERIF_BUILD_DIR="$BD" python3 "$VERIF_DIR/mkbuild.py"
 cd "$REPO"
-go1.26.8 test -c -tags verif -vet=off -modfile="$VERIF_DIR/build/go.mod" -overlay="$VERIF_DIR/build/overlay.json" -o "$OUT" ./zz_verifsim/
+go1.26.8 test -c -tags verif -vet=off -modfile="$BD/go.mod" -overlay="$BD/overlay.json" -o "$OUT" ./zz_verifsim/
